@@ -39,7 +39,7 @@ type parkedPoint struct {
 }
 
 func New() *D {
-	return &D{ops: map[string]*op{}, Timeout: 5 * time.Second, self: goid(), goOp: map[string]string{}, points: map[string]*parkedPoint{}}
+	return &D{ops: map[string]*op{}, Timeout: 15 * time.Second, self: goid(), goOp: map[string]string{}, points: map[string]*parkedPoint{}}
 }
 
 var goidRe = regexp.MustCompile(`^goroutine (\d+) \[`)
